@@ -1,2 +1,10 @@
 #!/bin/sh
-exit 0
+# Offline setup: build the rustc_private driver and warm the dependency build of /repo for
+# both analysed feature configurations (the first fact extraction).
+set -e
+DIR="$(cd "$(dirname "$0")" && pwd)"
+cd "$DIR"
+export CARGO_NET_OFFLINE=true
+cargo +nightly build --release --offline --manifest-path driver/Cargo.toml
+python3 -m compileall -q engine rules >/dev/null 2>&1 || true
+python3 engine/extract.py default all
